@@ -1,13 +1,602 @@
 import Mdns.Lemmas.Sched
-import Mdns.Model.Cache
+import Mdns.Lemmas.ClientTimers
+import Mdns.Props.C03
+import Mdns.Props.C04
 /-
   C17  Hostname resolution: right addresses, case-insensitive, ends on time.
 
-  Scheduler part on `Mdns/Model/Sched.lean` (exact on responder-free histories);
-  the address events are decided by the monitor `ok_C17` on real histories from the records
-  that were delivered (independent of the daemon's cache).
+  Model: `Mdns/Model/Client.lean` (one loop iteration `Client.iter`; compared with the real
+  daemon on every run: queries, events with payload, metrics, wake-up).  The theorems of the
+  first part hold for ANY sequence of iterations from the start of the daemon (any times,
+  packets, commands).  The last section keeps the older statements about the scheduler
+  fragment `Mdns/Model/Sched.lean`.
 -/
 namespace Mdns.Props.C17
+
+section ClientModel
+open Mdns Mdns.Rec Mdns.Cache Mdns.Client
+
+/-- all commands of a history of iterations -/
+def cmdsOf (h : List (Nat × List Packet × List Command)) : List Command := h.flatMap (·.2.2)
+
+/-- the time of the last iteration of a history (`T` if it has none) -/
+def lastTime : Nat → List (Nat × List Packet × List Command) → Nat
+  | T, [] => T
+  | _, (now, _, _) :: rest => lastTime now rest
+
+theorem histOf_append : ∀ (a b : List (Nat × List Packet × List Command)) (s : State),
+    C03.histOf s (a ++ b) = C03.histOf s a ++ C03.histOf (run s a).1 b
+  | [], _, _ => by simp [C03.histOf, run]
+  | (now, pkts, cmds) :: a, b, s => by
+    simp only [List.cons_append, C03.histOf, run]
+    rw [histOf_append a b]
+    simp only [List.append_assoc]
+
+theorem cmdsOf_append (a b : List (Nat × List Packet × List Command)) : cmdsOf (a ++ b) = cmdsOf a ++ cmdsOf b := by
+  simp [cmdsOf]
+
+/-! ### invariants of whole histories -/
+
+/-- after a history every cached entry is justified by a delivered record -/
+theorem run_prov (pre : List (Nat × List Packet × List Command)) (t0 : Nat) (intfs : List Intf) :
+    CacheProv (C03.histOf (init t0 intfs) pre) (run (init t0 intfs) pre).1.cache := by
+  simpa using (C03.resolved_sound_run pre [] (init t0 intfs) (cacheProv_empty [])).1
+
+/-- after a history no cached entry had expired at the time of its last iteration -/
+theorem run_live : ∀ (pre : List (Nat × List Packet × List Command)) (s : State) (T : Nat),
+    CacheAll (fun e => T < e.record.expires) s.cache →
+    CacheAll (fun e => lastTime T pre < e.record.expires) (run s pre).1.cache
+  | [], _, _, h => h
+  | (now, pkts, cmds) :: rest, s, _, _ => by
+    simp only [run, lastTime]
+    exact run_live rest _ now (iter_allLive s now pkts cmds).1
+
+/-- after a history every open hostname search stems from a `resolve_hostname` command of it -/
+theorem run_resolversFrom : ∀ (pre : List (Nat × List Packet × List Command)) (s : State) (all0 : List Command),
+    ResolversFrom all0 s.resolvers → ResolversFrom (all0 ++ cmdsOf pre) (run s pre).1.resolvers
+  | [], _, _, h => by simpa [cmdsOf, run] using h
+  | (now, pkts, cmds) :: rest, s, all0, h => by
+    have h1 : ResolversFrom (all0 ++ cmds) (iter s now pkts cmds).1.resolvers :=
+      resolversFrom_iter _ s now pkts cmds (fun c hc => List.mem_append_right _ hc)
+        (h.mono fun c hc => List.mem_append_left _ hc)
+    have h2 := run_resolversFrom rest _ _ h1
+    simpa [run, cmdsOf, List.append_assoc] using h2
+
+/-! ### (a) `AddressesFound` lists only addresses that were received for that name -/
+
+/-- What an `AddressesFound(host, addrs)` on channel `ch` says, in terms of the commands given
+    and the records DELIVERED to the daemon (`T` = time of the previous iteration, `now` = time of
+    this one):
+    * a `resolve_hostname` command with this channel asked for a name that equals `host` up to
+      letter case;
+    * every listed address comes from a delivered A / AAAA record whose owner name is `host`
+      (byte for byte: the event is per owner name as received), with that address, tagged with
+      the interface it arrived on, and whose lifetime (delivery time + TTL) had not ended at the
+      previous iteration, or does not end before `now`. -/
+structure HFoundFrom (hist : List Delivery) (cmds : List Command) (T now ch : Nat) (host : BList)
+    (addrs : List AddrItem) : Prop where
+  search : ∃ h t, Command.resolveHost h ch t ∈ cmds ∧ lower h = lower host
+  addr : ∀ a ∈ addrs, ∃ d ∈ hist, d.wire.name = host ∧ (d.wire.ty = 1 ∨ d.wire.ty = 28) ∧
+    (d.wire.rdata = .a a.1 ∨ d.wire.rdata = .aaaa a.1) ∧ d.ifName = a.2.1 ∧ d.ifIdx = a.2.2 ∧
+    (T < d.time + 1000 * d.wire.ttl ∨ now ≤ d.time + 1000 * d.wire.ttl)
+
+/-- a cached address entry with its justification, in terms of the delivery -/
+theorem addr_entry_delivered (hist : List Delivery) (c : Cache) (hc : CacheProv hist c) (key : BList) (e : Entry)
+    (he : e ∈ (c.addr.get key).getD []) (a : AddrItem) (ha : addrItemOf e = some a) :
+    lower e.record.name = key ∧
+    ∃ d ∈ hist, d.wire.name = e.record.name ∧ (d.wire.ty = 1 ∨ d.wire.ty = 28) ∧
+      (d.wire.rdata = .a a.1 ∨ d.wire.rdata = .aaaa a.1) ∧ d.ifName = a.2.1 ∧ d.ifIdx = a.2.2 ∧
+      e.record.expires ≤ d.time + 1000 * d.wire.ttl := by
+  obtain ⟨q, hq, hqk, hqe⟩ := mem_getD _ _ e he
+  obtain ⟨⟨d, hd, j⟩, hf⟩ := hc .addr q hq e hqe
+  refine ⟨by rw [← hqk]; exact hf.2, d, hd, j.1.symm, ?_, ?_⟩
+  · rw [← j.2.1]; exact C03.slot_addr hf.1
+  · have h5 := j.2.2.2.2.1
+    rw [mem_addrItemOf ha] at h5
+    have h8 := j.2.2.2.2.2.2.2
+    cases hw : d.wire.rdata <;> simp [ofWire, Record.new, hw] at h5
+    · obtain ⟨h1, h2, h3⟩ := h5
+      exact ⟨Or.inl (by rw [h1]), h2.symm, h3.symm, h8⟩
+    · obtain ⟨h1, h2, h3⟩ := h5
+      exact ⟨Or.inr (by rw [h1]), h2.symm, h3.symm, h8⟩
+
+/-- a group of `get_addresses_for_host(name)` on a justified cache whose entries respect the
+    expiry floor -/
+theorem group_sound (hist : List Delivery) (T now : Nat) (c : Cache) (hc : CacheProv hist c)
+    (hf : CacheAll (Floor T now) c) (name host : BList) (addrs : List AddrItem)
+    (hm : (host, addrs) ∈ addressesForHost c name) :
+    lower host = lower name ∧
+    ∀ a ∈ addrs, ∃ d ∈ hist, d.wire.name = host ∧ (d.wire.ty = 1 ∨ d.wire.ty = 28) ∧
+      (d.wire.rdata = .a a.1 ∨ d.wire.rdata = .aaaa a.1) ∧ d.ifName = a.2.1 ∧ d.ifIdx = a.2.2 ∧
+      (T < d.time + 1000 * d.wire.ttl ∨ now ≤ d.time + 1000 * d.wire.ttl) := by
+  obtain ⟨⟨e0, he0, hn0⟩, hiff⟩ := mem_addressesForHost c name host addrs hm
+  refine ⟨?_, ?_⟩
+  · obtain ⟨q, hq, hqk, hqe⟩ := mem_getD _ _ e0 he0
+    have hf0 := (hc .addr q hq e0 hqe).2
+    rw [← hn0, ← hqk]
+    exact hf0.2
+  · intro a ha
+    obtain ⟨e, he, hn, hi⟩ := (hiff a).mp ha
+    obtain ⟨_, d, hd, h1, h2, h3, h4, h5, h6⟩ := addr_entry_delivered hist c hc _ e he a hi
+    refine ⟨d, hd, h1.trans hn, h2, h3, h4, h5, ?_⟩
+    obtain ⟨q, hq, _, hqe⟩ := mem_getD _ _ e he
+    rcases hf .addr q hq e hqe with h | h
+    · left; omega
+    · right; omega
+
+/-- **hfound_sound (one iteration), general form**: from a cache justified by the deliveries
+    `hist` whose entries respect the expiry floor (`Floor T now`: not expired at `T`, or not
+    expiring before `now`), and a resolver table that stems from the commands `cmds0`, every
+    `AddressesFound` of the iteration is as `HFoundFrom` says. -/
+theorem hfound_sound_floor (hist : List Delivery) (cmds0 : List Command) (T : Nat) (s : State) (now : Nat)
+    (pkts : List Packet) (cmds : List Command) (hc : CacheProv hist s.cache)
+    (hfl : CacheAll (Floor T now) s.cache) (hr : ResolversFrom cmds0 s.resolvers)
+    (ch : Nat) (host : BList) (addrs : List AddrItem)
+    (hm : Out.event ch (.hfound host addrs) ∈ (iter s now pkts cmds).2) :
+    HFoundFrom (hist ++ deliveries s now pkts) (cmds0 ++ cmds) T now ch host addrs := by
+  rcases hfound_iter s now pkts cmds ch host addrs hm with ⟨pre, p, post, name, hp, hch, hg⟩ | ⟨pre, h0, t, post, hp, hg⟩
+  · -- assembled in `handle_response`
+    have hprov := (ok_ingress now (pre ++ [p]) hist s hc).1
+    have hfloor := floor_ingress T now (pre ++ [p]) s hfl
+    obtain ⟨hlow, haddr⟩ := group_sound _ T now _ hprov hfloor name host addrs hg
+    obtain ⟨q, hq, hqk, hqc⟩ := resolverChan_mem s name ch hch
+    obtain ⟨h1, t1, hcmd, hk⟩ := hr q hq
+    refine ⟨⟨h1, t1, List.mem_append_left _ (hqc ▸ hcmd), ?_⟩, ?_⟩
+    · rw [hlow, ← hqk, hk]
+    · intro a ha
+      obtain ⟨d, hd, rest⟩ := haddr a ha
+      refine ⟨d, ?_, rest⟩
+      rcases List.mem_append.mp hd with hd | hd
+      · exact List.mem_append_left _ hd
+      · exact List.mem_append_right _ (hp ▸ deliveries_prefix_sub s now pre p post d hd)
+  · -- the cache replay of a `resolve_hostname` command
+    have hL := lowClosed_cacheProv (hist ++ deliveries s now pkts)
+    have hprov := (ok_runCommands _ hL now pre _ (prov_preCommands hist s now pkts hc)).1
+    have hfloor := floor_runCommands T now pre _ (floor_preCommands T now s pkts hfl)
+    obtain ⟨hlow, haddr⟩ := group_sound _ T now _ hprov hfloor h0 host addrs hg
+    refine ⟨⟨h0, t, List.mem_append_right _ (by rw [hp]; simp), hlow.symm⟩, haddr⟩
+
+/-- **hfound_sound (one iteration).**  From a cache justified by the deliveries `hist` whose
+    entries had not expired at `T`, and a resolver table that stems from the commands `cmds0`:
+    every `AddressesFound` of the iteration is as `HFoundFrom` says. -/
+theorem hfound_sound_iter (hist : List Delivery) (cmds0 : List Command) (T : Nat) (s : State) (now : Nat)
+    (pkts : List Packet) (cmds : List Command) (hc : CacheProv hist s.cache)
+    (hl : CacheAll (fun e => T < e.record.expires) s.cache) (hr : ResolversFrom cmds0 s.resolvers)
+    (ch : Nat) (host : BList) (addrs : List AddrItem)
+    (hm : Out.event ch (.hfound host addrs) ∈ (iter s now pkts cmds).2) :
+    HFoundFrom (hist ++ deliveries s now pkts) (cmds0 ++ cmds) T now ch host addrs :=
+  hfound_sound_floor hist cmds0 T s now pkts cmds hc (hl.mono fun e he => Or.inl he) hr ch host addrs hm
+
+/-- **hfound_sound (whole histories).**  Start the daemon and run ANY history `pre`, then one
+    more iteration: every `AddressesFound(host, addrs)` it emits on a channel `ch` answers a
+    `resolve_hostname` call made on `ch` for that name (letter case ignored), and every listed
+    address comes from a delivered A / AAAA record of exactly that owner name, with the
+    interface it was received on, whose lifetime had not ended at the previous iteration (or
+    does not end before this one). -/
+theorem hfound_sound (t0 : Nat) (intfs : List Intf) (pre : List (Nat × List Packet × List Command))
+    (now : Nat) (pkts : List Packet) (cmds : List Command) (ch : Nat) (host : BList) (addrs : List AddrItem)
+    (hm : Out.event ch (.hfound host addrs) ∈ (iter (run (init t0 intfs) pre).1 now pkts cmds).2) :
+    HFoundFrom (C03.histOf (init t0 intfs) (pre ++ [(now, pkts, cmds)])) (cmdsOf (pre ++ [(now, pkts, cmds)]))
+      (lastTime 0 pre) now ch host addrs := by
+  have h := hfound_sound_iter _ (cmdsOf pre) (lastTime 0 pre) _ now pkts cmds (run_prov pre t0 intfs)
+    (run_live pre (init t0 intfs) 0 (cacheAll_empty _))
+    (by simpa using run_resolversFrom pre (init t0 intfs) [] (fun q hq => by cases hq)) ch host addrs hm
+  rw [histOf_append, cmdsOf_append]
+  simpa [C03.histOf, cmdsOf] using h
+
+/-- the event lists ALL addresses cached under that owner name at that moment: a group of
+    `get_addresses_for_host` is exactly the set of addresses (with interface) of the entries
+    filed under the lower-cased name whose owner name is the group's (cache-level contract) -/
+theorem hfound_lists_all (c : Cache) (name host : BList) (addrs : List AddrItem)
+    (h : (host, addrs) ∈ addressesForHost c name) (a : AddrItem) :
+    a ∈ addrs ↔ ∃ e ∈ (c.addr.get (lower name)).getD [], e.record.name = host ∧ addrItemOf e = some a :=
+  (mem_addressesForHost c name host addrs h).2 a
+
+/-- C17, first clause, read with "unexpired at the instant of the event": every address of an
+    `AddressesFound` at `now` comes from a delivered record whose lifetime ends after `now`. -/
+def hfound_unexpired_full : Prop :=
+  ∀ (t0 : Nat) (intfs : List Intf) (pre : List (Nat × List Packet × List Command)) (now : Nat) (pkts : List Packet)
+    (cmds : List Command) (ch : Nat) (host : BList) (addrs : List AddrItem),
+    Out.event ch (.hfound host addrs) ∈ (iter (run (init t0 intfs) pre).1 now pkts cmds).2 →
+    ∀ a ∈ addrs, ∃ d ∈ C03.histOf (init t0 intfs) (pre ++ [(now, pkts, cmds)]),
+      (d.wire.rdata = .a a.1 ∨ d.wire.rdata = .aaaa a.1) ∧ now < d.time + 1000 * d.wire.ttl
+
+/-! witness: an address with TTL 1 s is delivered at 1500; the next iteration comes at 5000 (a
+    late loop iteration) and reads another address of the host.  `handle_response` runs before
+    the eviction of that iteration and `get_addresses_for_host` does not look at expiry times:
+    the event lists the address that ran out at 2500 (it is reported removed at the end of the
+    same iteration). -/
+
+def hostH : BList := [0x48, 0x2e]              -- "H."
+def hostLower : BList := [0x68, 0x2e]          -- "h."
+
+def addrPkt (name : BList) (ttl : Nat) (ip : BList) : Packet :=
+  { ifIdx := 2, v4 := true,
+    msg := { id := 0, flags := 0x8400, questions := [], answers := [C03.wrec name 1 ttl (.a ip)],
+             authorities := [], additionals := [] } }
+
+def lateHistory : List (Nat × List Packet × List Command) :=
+  [(1000, [], [.resolveHost hostH 7 none]), (1500, [addrPkt hostLower 1 [10, 0, 0, 1]], [])]
+
+theorem late_witness :
+    ((iter (run (init 1000 [C03.eth0]) lateHistory).1 5000 [addrPkt hostLower 120 [10, 0, 0, 2]] []).2.filter
+        fun o => match o with | .event _ (.hfound ..) => true | .event _ (.hremoved ..) => true | _ => false) =
+      [.event 7 (.hfound hostLower [([10, 0, 0, 2], [0x65], 2), ([10, 0, 0, 1], [0x65], 2)]),
+       .event 7 (.hremoved hostLower [([10, 0, 0, 1], [0x65], 2)])] := by decide
+
+/-- `hfound_unexpired_full` does not hold of the model: on a late iteration an address whose
+    record ran out is still listed (witness `lateHistory`).  `hfound_sound` is what holds
+    without a timeliness assumption; `Props.C12` shows that an iteration that is not later than
+    the requested wake-up finds no entry that ran out before `now`. -/
+theorem hfound_unexpired_full_false : ¬ hfound_unexpired_full := by
+  intro h
+  have hm : Out.event 7 (.hfound hostLower [([10, 0, 0, 2], [0x65], 2), ([10, 0, 0, 1], [0x65], 2)]) ∈
+      (iter (run (init 1000 [C03.eth0]) lateHistory).1 5000 [addrPkt hostLower 120 [10, 0, 0, 2]] []).2 := by
+    decide
+  obtain ⟨d, hd, hr, hl⟩ := h 1000 [C03.eth0] lateHistory 5000 _ [] 7 hostLower _ hm ([10, 0, 0, 1], [0x65], 2)
+    (by simp)
+  have hall : (C03.histOf (init 1000 [C03.eth0]) (lateHistory ++ [(5000, [addrPkt hostLower 120 [10, 0, 0, 2]], [])])).all
+      (fun d => !((d.wire.rdata == .a [10, 0, 0, 1] || d.wire.rdata == .aaaa [10, 0, 0, 1]) &&
+        decide (5000 < d.time + 1000 * d.wire.ttl))) = true := by decide
+  have hb := List.all_eq_true.mp hall d hd
+  rcases hr with hr | hr <;> simp [hr, hl] at hb
+
+/-! ### (b) `AddressesRemoved` only for addresses whose entries ran out in that iteration -/
+
+/-- What an `AddressesRemoved(host, addrs)` on `ch` says (`T` = time of the previous iteration):
+    a `resolve_hostname` command with this channel asked for that name (letter case ignored);
+    the list is not empty; and every listed address is that of a cached copy of a delivered
+    A / AAAA record of exactly that owner name, on that interface, whose expiry instant `x`
+    - never later than the record's lifetime allows; earlier after a goodbye, a cache-flush or
+    a `verify` - lies in this iteration: `x ≤ now`, and `T < x` or `x = now`. -/
+structure HRemovedFrom (hist : List Delivery) (cmds : List Command) (T now ch : Nat) (host : BList)
+    (addrs : List AddrItem) : Prop where
+  search : ∃ h t, Command.resolveHost h ch t ∈ cmds ∧ lower h = lower host
+  ne : addrs ≠ []
+  addr : ∀ a ∈ addrs, ∃ d ∈ hist, d.wire.name = host ∧ (d.wire.ty = 1 ∨ d.wire.ty = 28) ∧
+    (d.wire.rdata = .a a.1 ∨ d.wire.rdata = .aaaa a.1) ∧ d.ifName = a.2.1 ∧ d.ifIdx = a.2.2 ∧
+    ∃ x, x ≤ d.time + 1000 * d.wire.ttl ∧ x ≤ now ∧ (T < x ∨ now ≤ x)
+
+theorem evictServicesPhase_addr (s : State) (now : Nat) : (evictServicesPhase s now).1.cache.addr = s.cache.addr := rfl
+
+theorem evictServicesPhase_resolvers (s : State) (now : Nat) : (evictServicesPhase s now).1.resolvers = s.resolvers := rfl
+
+theorem preEvict_resolvers (s : State) (now : Nat) (pkts : List Packet) (cmds : List Command) :
+    (preEvict s now pkts cmds).resolvers = (iter s now pkts cmds).1.resolvers := by
+  rw [iter_resolvers]
+  simp only [preEvict, refreshResolvers, refreshActive, addTimers_resolvers, rerunPhase, runReruns_resolvers]
+
+/-- **hremoved_sound (one iteration)** -/
+theorem hremoved_sound_iter (hist : List Delivery) (cmds0 : List Command) (T : Nat) (s : State) (now : Nat)
+    (pkts : List Packet) (cmds : List Command) (hc : CacheProv hist s.cache)
+    (hl : CacheAll (fun e => T < e.record.expires) s.cache) (hr : ResolversFrom cmds0 s.resolvers)
+    (ch : Nat) (host : BList) (addrs : List AddrItem)
+    (hm : Out.event ch (.hremoved host addrs) ∈ (iter s now pkts cmds).2) :
+    HRemovedFrom (hist ++ deliveries s now pkts) (cmds0 ++ cmds) T now ch host addrs := by
+  have hfl : CacheAll (Floor T now) s.cache := hl.mono fun e he => Or.inl he
+  obtain ⟨hch, hne, hiff⟩ := hremoved_evictAddrPhase _ now ch host addrs (hremoved_iter s now pkts cmds ch host addrs hm)
+  have hprov := prov_preEvict hist s now pkts cmds hc
+  have hfloor := floor_preEvict T now s pkts cmds hfl
+  have hres : ResolversFrom (cmds0 ++ cmds) (iter s now pkts cmds).1.resolvers :=
+    resolversFrom_iter _ s now pkts cmds (fun c hc => List.mem_append_right _ hc)
+      (hr.mono fun c hc => List.mem_append_left _ hc)
+  have hentry : ∀ a ∈ addrs, ∃ p ∈ (preEvict s now pkts cmds).cache.addr, ∃ e ∈ p.2, e.record.expires ≤ now ∧
+      e.record.name = host ∧ e.record.rdata = .addr a.1 a.2.1 a.2.2 := by
+    intro a ha
+    exact (hiff a).mp ha
+  refine ⟨?_, hne, ?_⟩
+  · obtain ⟨q, hq, hqk, hqc⟩ := resolverChan_mem _ host ch hch
+    rw [evictServicesPhase_resolvers, preEvict_resolvers] at hq
+    obtain ⟨h1, t1, hcmd, hk⟩ := hres q hq
+    exact ⟨h1, t1, hqc ▸ hcmd, by rw [← hk, hqk]⟩
+  · intro a ha
+    obtain ⟨p, hp, e, he, hx, hn, hrd⟩ := hentry a ha
+    obtain ⟨⟨d, hd, j⟩, hf⟩ := hprov .addr p hp e he
+    have h8 := j.2.2.2.2.2.2.2
+    have hty : d.wire.ty = 1 ∨ d.wire.ty = 28 := by rw [← j.2.1]; exact C03.slot_addr hf.1
+    have h5 := j.2.2.2.2.1
+    rw [hrd] at h5
+    have hfl := hfloor .addr p hp e he
+    cases hw : d.wire.rdata <;> simp [ofWire, Record.new, hw] at h5
+    · obtain ⟨h1, h2, h3⟩ := h5
+      exact ⟨d, hd, j.1.symm.trans hn, hty, Or.inl (by rw [h1]; exact hw), h2.symm, h3.symm, e.record.expires, h8, hx, hfl⟩
+    · obtain ⟨h1, h2, h3⟩ := h5
+      exact ⟨d, hd, j.1.symm.trans hn, hty, Or.inr (by rw [h1]; exact hw), h2.symm, h3.symm, e.record.expires, h8, hx, hfl⟩
+
+/-- **hremoved_sound (whole histories).**  Start the daemon and run ANY history `pre`, then one
+    more iteration: every `AddressesRemoved` it emits is as `HRemovedFrom` says - for a searched
+    name, never empty, and only addresses whose cached record ran out (by TTL, goodbye, cache
+    flush or `verify`) in this very iteration. -/
+theorem hremoved_sound (t0 : Nat) (intfs : List Intf) (pre : List (Nat × List Packet × List Command))
+    (now : Nat) (pkts : List Packet) (cmds : List Command) (ch : Nat) (host : BList) (addrs : List AddrItem)
+    (hm : Out.event ch (.hremoved host addrs) ∈ (iter (run (init t0 intfs) pre).1 now pkts cmds).2) :
+    HRemovedFrom (C03.histOf (init t0 intfs) (pre ++ [(now, pkts, cmds)])) (cmdsOf (pre ++ [(now, pkts, cmds)]))
+      (lastTime 0 pre) now ch host addrs := by
+  have h := hremoved_sound_iter _ (cmdsOf pre) (lastTime 0 pre) _ now pkts cmds (run_prov pre t0 intfs)
+    (run_live pre (init t0 intfs) 0 (cacheAll_empty _))
+    (by simpa using run_resolversFrom pre (init t0 intfs) [] (fun q hq => by cases hq)) ch host addrs hm
+  rw [histOf_append, cmdsOf_append]
+  simpa [C03.histOf, cmdsOf] using h
+
+/-- ... and exactly those: the eviction step reports every address entry of that owner name that
+    has run out (`expires ≤ now`) when the name is being resolved (cache-level contract), and
+    after the iteration no entry with `expires ≤ now` is left (`Client.iter_allLive`). -/
+theorem hremoved_exact (s : State) (now : Nat) (ch : Nat) (host : BList) (addrs : List AddrItem)
+    (h : Out.event ch (.hremoved host addrs) ∈ (evictAddrPhase s now).2) (a : AddrItem) :
+    a ∈ addrs ↔ ∃ p ∈ s.cache.addr, ∃ e ∈ p.2, e.record.expires ≤ now ∧ e.record.name = host ∧
+      e.record.rdata = .addr a.1 a.2.1 a.2.2 :=
+  (hremoved_evictAddrPhase s now ch host addrs h).2.2 a
+
+/-! ### (c) `AddressesFound` is complete: a new address of a searched host is reported at once -/
+
+/-- **hfound_complete (step contract, one datagram).**  `handle_response` reads the records
+    `pre ++ r :: post` of a datagram on interface `intf`.  `r` is an A / AAAA record with
+    address `ip` whose name (any letter case) has an open search on channel `ch`, and when its
+    turn comes `add_or_update` reports it as new.  Then an `AddressesFound` for that owner name
+    that lists `ip`, tagged with the receiving interface, goes to `ch` in this very
+    `handle_response`. -/
+theorem hfound_complete (s : State) (now : Nat) (intf : Intf) (m : Wire.Msg) (pre : List Wire.Rec)
+    (r : Wire.Rec) (post : List Wire.Rec) (ch : Nat) (ip : BList) (e : Entry)
+    (hrecs : m.answers ++ m.authorities ++ m.additionals = pre ++ r :: post)
+    (hty : r.ty = 1 ∨ r.ty = 28) (hrd : r.rdata = .a ip ∨ r.rdata = .aaaa ip)
+    (hch : resolverChan s r.name = some ch)
+    (hnew : (addOrUpdate
+        (ingestAll s.queriers intf.name intf.idx now (isForUs s m.answers)
+          { cache := s.cache, timers := [], changes := [], outs := [] } pre).cache
+        intf.name intf.idx (ofWire intf.name intf.idx now r) now (isForUs s m.answers)).result = some (e, true)) :
+    ∃ addrs, Out.event ch (.hfound r.name addrs) ∈ (handleResponse s now intf m).2 ∧
+      (ip, intf.name, intf.idx) ∈ addrs :=
+  hfound_complete_response s now intf m pre r post ch ip e hrecs hty hrd hch hnew
+
+/-- when `add_or_update` reports a record as new: the message is one the daemon takes in
+    (`is_for_us`), and every cached copy of the record (same owner, type, class, cache-flush bit,
+    RDATA and interface) is a withdrawn one (TTL ≤ 1) while the incoming TTL is above 1 - in
+    particular when there is no cached copy -/
+theorem new_when_unknown_or_revived (c : Cache) (ifName : BList) (ifIdx now : Nat) (r : Wire.Rec)
+    (hty : r.ty = 1 ∨ r.ty = 28) (httl : r.ttl > 1)
+    (hrev : ∀ x ∈ (c.addr.get (lower r.name)).getD [],
+      x.record.matchesRec (ofWire ifName ifIdx now r) = true → x.record.ttl ≤ 1) :
+    ∃ e, (addOrUpdate c ifName ifIdx (ofWire ifName ifIdx now r) now true).result = some (e, true) := by
+  obtain ⟨e, he⟩ := addOrUpdate_result_some c ifName ifIdx (ofWire ifName ifIdx now r) now .addr (slotOf_addr hty)
+  refine ⟨e, ?_⟩
+  rw [he]
+  have hflag := C04.revived_is_new (ofWire ifName ifIdx now r) now
+    ((((noteSubtype c (ofWire ifName ifIdx now r) true).table .addr).get (keyOf .addr (ofWire ifName ifIdx now r).name)).getD [])
+    httl (by
+      intro x hx
+      rw [table_noteSubtype] at hx
+      exact hrev x hx)
+  have : isNewFlag = C04.newFlag := rfl
+  rw [this, hflag]
+
+/-- **hfound_complete, first record of a datagram the daemon takes in**: an address that is not
+    cached yet (or cached only as a withdrawn record) for a searched name, TTL above 1 s -/
+theorem hfound_complete_first (s : State) (now : Nat) (intf : Intf) (m : Wire.Msg)
+    (r : Wire.Rec) (post : List Wire.Rec) (ch : Nat) (ip : BList)
+    (hrecs : m.answers ++ m.authorities ++ m.additionals = r :: post)
+    (hfor : isForUs s m.answers = true)
+    (hty : r.ty = 1 ∨ r.ty = 28) (hrd : r.rdata = .a ip ∨ r.rdata = .aaaa ip) (httl : r.ttl > 1)
+    (hch : resolverChan s r.name = some ch)
+    (hrev : ∀ x ∈ (s.cache.addr.get (lower r.name)).getD [],
+      x.record.matchesRec (ofWire intf.name intf.idx now r) = true → x.record.ttl ≤ 1) :
+    ∃ addrs, Out.event ch (.hfound r.name addrs) ∈ (handleResponse s now intf m).2 ∧
+      (ip, intf.name, intf.idx) ∈ addrs := by
+  obtain ⟨e, he⟩ := new_when_unknown_or_revived s.cache intf.name intf.idx now r hty httl hrev
+  exact hfound_complete s now intf m [] r post ch ip e (by simpa using hrecs) hty hrd hch (by
+    rw [hfor]
+    exact he)
+
+/-- ... and the events of a datagram are events of the iteration that reads it -/
+theorem response_outs_in_iter (s : State) (now : Nat) (pkts pre : List Packet) (p : Packet) (post : List Packet)
+    (cmds : List Command) (intf : Intf) (o : Out)
+    (hp : pkts = pre ++ p :: post)
+    (hread : handleRead (ingress s now pre).1 now p = handleResponse (ingress s now pre).1 now intf p.msg)
+    (ho : o ∈ (handleResponse (ingress s now pre).1 now intf p.msg).2) :
+    o ∈ (iter s now pkts cmds).2 :=
+  hfound_complete_iter s now pkts pre p post cmds intf o hp hread ho
+
+/-! ### (d) A and AAAA at once, then at doubling intervals; the time-out ends the search -/
+
+/-- **Start.**  `resolve_hostname(host)` on `ch`: `SearchStarted`, the addresses already cached
+    for the name (one `AddressesFound` per owner name), then ONE query asking A and AAAA for
+    the name as given, with the known answers; the search is filed under the lower-cased name
+    with its deadline `now + timeout`, a timer is armed for the deadline, and any earlier search
+    of that name (any letter case) is replaced. -/
+theorem resolve_starts_client (s : State) (now : Nat) (host : BList) (ch : Nat) (timeout : Option Nat) :
+    (execCommand s now (.resolveHost host ch timeout)).2 =
+      [.event ch .hstarted] ++ ((addressesForHost s.cache host).map fun p => Out.event ch (.hfound p.1 p.2)) ++
+        [sendQuery s.cache now [(host, 1), (host, 28)]] ∧
+    (execCommand s now (.resolveHost host ch timeout)).1.resolvers =
+      (lower host, ch, timeout.map (now + ·)) :: s.resolvers.filter (fun q => q.1 != lower host) ∧
+    (∀ t, timeout = some t → (now + t) ∈ (execCommand s now (.resolveHost host ch timeout)).1.timers) := by
+  refine ⟨?_, execResolveHost_new_resolvers s now host 1 ch timeout, ?_⟩
+  · simp only [execCommand, execResolveHost, Bool.false_and, Bool.false_eq_true, if_false]
+  · intro t ht
+    subst ht
+    simp only [execCommand, execResolveHost, Bool.false_and, Bool.false_eq_true, if_false, Option.map_some]
+    split <;> simp [addRerun]
+
+/-- **First retransmission.**  It is queued for `now + 1 s` with the next delay 2 s - if that
+    instant lies before the deadline - together with its timer; there is never more than this
+    one queued for the name. -/
+theorem resolve_first_rerun (s : State) (now : Nat) (host : BList) (ch : Nat) (timeout : Option Nat) :
+    (execCommand s now (.resolveHost host ch timeout)).1.reruns.filter (isResolveOf (lower host)) =
+      (if (match timeout with | some t => decide (now + 1000 < now + t) | none => true) then
+        [⟨now + 1000, .resolveHost host 2 ch⟩] else []) ∧
+    ((match timeout with | some t => decide (now + 1000 < now + t) | none => true) = true →
+      (now + 1000) ∈ (execCommand s now (.resolveHost host ch timeout)).1.timers) := by
+  have hfil : (s.reruns.filter (fun r => !isResolveOf (lower host) r)).filter (isResolveOf (lower host)) = [] :=
+    Sched.filter_not_self _ _
+  cases timeout with
+  | none =>
+    simp [execCommand, execResolveHost, withinDeadline, addRerun, List.filter_append, isResolveOf,
+      Sched.nextDelay, Sched.MAX_DELAY]
+  | some t =>
+    by_cases hd : now + 1000 < now + t
+    · simp [execCommand, execResolveHost, withinDeadline, addRerun, List.filter_append, isResolveOf,
+        Sched.nextDelay, Sched.MAX_DELAY, hd]
+    · simp [execCommand, execResolveHost, withinDeadline, hfil, hd]
+
+/-- **Retransmission.**  Running the queued `ResolveHostname(host, delay)` while the search is
+    open: `SearchStarted` again (as the code does), ONE query asking A and AAAA with the known
+    answers, and the next run queued `delay` seconds ahead with the delay doubled (capped at
+    one hour, `Sched.nextDelay`) - unless that instant is not before the deadline. -/
+theorem resolve_rerun_open (s : State) (now : Nat) (host : BList) (d ch : Nat)
+    (hopen : s.resolvers.any (·.1 == lower host) = true) :
+    (execRerun s now (.resolveHost host d ch)).2 =
+      [.event ch .hstarted, sendQuery s.cache now [(host, 1), (host, 28)]] ∧
+    (execRerun s now (.resolveHost host d ch)).1.reruns =
+      (if withinDeadline s (lower host) (now + d * 1000) then
+        s.reruns ++ [⟨now + d * 1000, .resolveHost host (Sched.nextDelay d) ch⟩] else s.reruns) ∧
+    (withinDeadline s (lower host) (now + d * 1000) = true →
+      (now + d * 1000) ∈ (execRerun s now (.resolveHost host d ch)).1.timers) := by
+  simp only [execRerun, execResolveHost, hopen, Bool.not_true, Bool.and_false, Bool.false_eq_true, if_false, if_true]
+  refine ⟨by simp, ?_, ?_⟩
+  · split <;> simp [addRerun]
+  · intro h
+    simp [h, addRerun]
+
+/-- ... and once the search is gone (stopped, timed out, replaced by nothing) a queued
+    retransmission does nothing at all -/
+theorem resolve_rerun_closed (s : State) (now : Nat) (host : BList) (d ch : Nat)
+    (hgone : s.resolvers.any (·.1 == lower host) = false) :
+    execRerun s now (.resolveHost host d ch) = (s, []) := by
+  simp [execRerun, execResolveHost, hgone]
+
+/-- `withinDeadline`: no deadline, or strictly before it -/
+theorem withinDeadline_iff (s : State) (key : BList) (next : Nat) :
+    withinDeadline s key next = true ↔
+      ∀ q t, s.resolvers.find? (·.1 == key) = some q → q.2.2 = some t → next < t := by
+  unfold withinDeadline
+  cases hf : s.resolvers.find? (·.1 == key) with
+  | none => simp
+  | some q =>
+    cases hd : q.2.2 with
+    | none =>
+      simp only [Option.bind_some, hd, true_iff]
+      intro q' t hq ht
+      cases hq
+      rw [hd] at ht
+      cases ht
+    | some t =>
+      simp only [Option.bind_some, hd, decide_eq_true_eq]
+      constructor
+      · intro h q' t' hq ht
+        cases hq
+        rw [hd] at ht
+        cases ht
+        exact h
+      · intro h
+        exact h q t rfl hd
+
+/-- **Time-out.**  In the time-out phase of an iteration at `now`: a search whose deadline `t`
+    has been reached (`now ≥ t`) gets `SearchTimeout` immediately followed by `SearchStopped` on
+    its channel and is removed; a search whose deadline has not been reached, or that has
+    none, stays. -/
+theorem timeout_contract_client (s : State) (now : Nat) (key : BList) (ch : Nat) (dl : Option Nat)
+    (h : (key, ch, dl) ∈ s.resolvers) :
+    (∀ t, dl = some t → now ≥ t →
+      [Out.event ch (.htimeout key), Out.event ch (.hstopped key)] <:+: (runTimeouts s now).2 ∧
+      (key, ch, dl) ∉ (runTimeouts s now).1.resolvers) ∧
+    ((∀ t, dl = some t → now < t) → (key, ch, dl) ∈ (runTimeouts s now).1.resolvers) := by
+  refine ⟨?_, ?_⟩
+  · intro t hdl hdue
+    subst hdl
+    refine ⟨?_, ?_⟩
+    · simp only [runTimeouts]
+      obtain ⟨l1, l2, hl⟩ := List.append_of_mem h
+      rw [hl]
+      simp only [List.filter_append, List.filter_cons, hdue, decide_true, if_true, List.flatMap_append,
+        List.flatMap_cons]
+      exact ⟨_, _, by simp only [List.append_assoc]; rfl⟩
+    · simp [runTimeouts, hdue]
+  · intro hnot
+    simp only [runTimeouts, List.mem_filter]
+    refine ⟨h, ?_⟩
+    cases dl with
+    | none => rfl
+    | some t =>
+      have := hnot t rfl
+      simp only []
+      simp
+      omega
+
+/-- every `SearchTimeout` of the time-out phase belongs to a search whose deadline has passed -/
+theorem timeout_only_when_due (s : State) (now : Nat) (ch : Nat) (key : BList)
+    (h : Out.event ch (.htimeout key) ∈ (runTimeouts s now).2) :
+    ∃ t, (key, ch, some t) ∈ s.resolvers ∧ now ≥ t := by
+  simp only [runTimeouts, List.mem_flatMap, List.mem_filter] at h
+  obtain ⟨q, ⟨hq, hdue⟩, hm⟩ := h
+  obtain ⟨k, c, dl⟩ := q
+  simp only [List.mem_cons, Out.event.injEq, Ev.htimeout.injEq, List.not_mem_nil, or_false] at hm
+  rcases hm with ⟨rfl, rfl⟩ | ⟨_, h2⟩
+  · cases dl with
+    | none => simp at hdue
+    | some t => exact ⟨t, hq, by simpa using hdue⟩
+  · cases h2
+
+/-! ### (e) refresh of the addresses while the search is open -/
+
+/-- **Refresh while the search is open.**  In the resolver-refresh phase of an iteration at
+    `now`: for every searched name and every address entry cached under it that has not
+    expired and whose refresh mark (80 % of the TTL; afterwards never again,
+    `Props.C11.resolution_refresh_once`) has been reached, a query for that name - type A for a
+    4-byte address, AAAA otherwise - goes out in this very phase. -/
+theorem refresh_while_open (s : State) (now : Nat) (key : BList) (ch : Nat) (dl : Option Nat) (e : Entry)
+    (ip ifn : BList) (ifi : Nat) (hres : (key, ch, dl) ∈ s.resolvers) (he : e ∈ (s.cache.addr.get key).getD [])
+    (hlive : now < e.record.expires) (hdue : e.record.refresh ≤ now) (hrd : e.record.rdata = .addr ip ifn ifi) :
+    ∃ known, Out.query [(key, if ip.length == 4 then 1 else 28)] known ∈ (refreshResolvers s now).2 := by
+  simp only [refreshResolvers]
+  exact refresh_query_go now key e ip ifn ifi hlive hdue hrd _ _ (List.mem_map.mpr ⟨_, hres, rfl⟩) he
+
+/-- ... and the refresh mark of an address entry is armed as a timer when the entry is stored
+    or renewed (`ingestOne` pushes `expires` and `refresh` of the returned entry), whether or
+    not a browse is active: the wake-up for it is C12's `Props.C12.TimersCover`. -/
+theorem refresh_timer_armed (q : List (BList × Nat)) (ifName : BList) (ifIdx now : Nat) (forUs : Bool) (acc : Ingest)
+    (r : Wire.Rec) (e : Entry) (b : Bool)
+    (h : (addOrUpdate acc.cache ifName ifIdx (ofWire ifName ifIdx now r) now forUs).result = some (e, b)) :
+    e.record.expires ∈ (ingestOne q ifName ifIdx now forUs acc r).timers ∧
+    e.record.refresh ∈ (ingestOne q ifName ifIdx now forUs acc r).timers :=
+  ingestOne_arms_result q ifName ifIdx now forUs acc r e b h
+
+/-! ### non-vacuity: a search with a time-out, an answer in another letter case, expiry -/
+
+/-- resolve "H." for 3.5 s at 1000: A + AAAA at 1000, 2000, 4000 (the run at 8000 would not be
+    before the deadline 4500 and is not queued); the address of "h." arrives at 1500 and is
+    reported at once; time-out then stop at 4500.  Codes: 1 = the query A + AAAA for "H.",
+    2 = `AddressesFound("h.", [10.0.0.1 on interface 2])`, 3 = `SearchTimeout`, 4 = `SearchStopped`
+    (all on channel 7), 0 = anything else. -/
+example :
+    ((run (init 1000 [C03.eth0])
+        [(1000, [], [.resolveHost hostH 7 (some 3500)]), (1500, [addrPkt hostLower 120 [10, 0, 0, 1]], []),
+         (2000, [], []), (4000, [], []), (4500, [], []), (8000, [], [])]).2.filterMap
+        fun o => (match o.2 with
+          | .query qs _ => some (o.1, if qs == [(hostH, 1), (hostH, 28)] then 1 else 0)
+          | .event 7 (.hfound h a) => some (o.1, if h == hostLower && a == [([10, 0, 0, 1], [0x65], 2)] then 2 else 0)
+          | .event 7 (.htimeout h) => some (o.1, if h == hostLower then 3 else 0)
+          | .event 7 (.hstopped h) => some (o.1, if h == hostLower then 4 else 0)
+          | .event _ .hstarted => none
+          | _ => some (o.1, 0) : Option (Nat × Nat))) =
+      [(1000, 1), (1500, 2), (2000, 1), (4000, 1), (4500, 3), (4500, 4)] := by decide
+
+/-- an address with TTL 10 s received at 1500 while the search is open: one refresh query
+    (type A for "h.", code 1) at the 80 % mark 9500, none at 10000, `AddressesRemoved` with that
+    address (code 2) at the expiry 11500 -/
+example :
+    ((run (init 1000 [C03.eth0])
+        [(1000, [], [.resolveHost hostH 7 none]), (1500, [addrPkt hostLower 10 [10, 0, 0, 1]], []),
+         (9500, [], []), (10000, [], []), (11500, [], [])]).2.filterMap
+        fun o => (match o.2 with
+          | .query [(n, 1)] _ => some (o.1, if n == hostLower then 1 else 0)
+          | .event 7 (.hremoved h a) => some (o.1, if h == hostLower && a == [([10, 0, 0, 1], [0x65], 2)] then 2 else 0)
+          | _ => none : Option (Nat × Nat))) =
+      [(9500, 1), (11500, 2)] := by decide
+
+end ClientModel
+
+/-! ### scheduler fragment (`Mdns/Model/Sched.lean`, exact on responder-free histories) -/
+
+section SchedFragment
 open Mdns Mdns.Sched
 
 /-- the search is keyed by the lower-cased host name: starting, stopping and the time-out
@@ -58,5 +647,7 @@ theorem entries_case_insensitive (c : Cache.Cache) (n1 n2 : BList) (h : lower n1
   simp [Cache.entriesFor, h]
 
 example : (execCommand (init 0) 0 (.resolveHost [0x48] 1 (some 500))).1.reruns = [] := by decide
+
+end SchedFragment
 
 end Mdns.Props.C17
